@@ -2,12 +2,16 @@
 (* Model instance for C09.  TLC enumerates (configuration, cheating formula) cases:
      configuration = a point of the option space  fmode x required x forbidden x instructor_vars x user functions
                      x constants x numbered variables x metric suffixes x answer form, taken around a "rich" baseline
-                     with at most MaxDims options changed (star / pairwise design), for one grader kind (Part);
+                     (user function f, user constant c, numbered variable a, a half-credit alternative answer) with
+                     at most MaxDims options changed (star / pairwise design), for one grader kind (Part);
      formula       = Combine(base, Zero(Atom(name, role), form), position): a correct / partially correct / wrong
                      base combined with a neutral term built from one NAME used in one ROLE (function of 0, function
                      of a variable, variable, number suffix), made neutral in one FORM (N*0, 0*N, N-N, N^0-1, bare)
                      and attached at one POSITION (sum, front, exponent, function argument, factor, denominator,
-                     subtraction, other array entry, or -- for sums -- the lower limit).
+                     other array entry, or -- for summations -- the lower limit); plus the bases alone (controls).
+   Instances:  *_quick.cfg     MaxDims = 1, the small name / form / position sets
+               *_thorough.cfg  MaxDims = 1, the rich sets (Rich = TRUE)
+               *_pairs.cfg     MaxDims = 2 (every pair of option changes), the small sets
    The state carries the rendered submission (token ids joined by blanks), the author's answers and the outcome
    classes Restrictions!Outcome allows; the dump is replayed into the real graders. *)
 EXTENDS Restrictions
@@ -177,14 +181,12 @@ NRQuick == { <<"sin", "fn0">>, <<"sinh", "fn0">>, <<"cos", "fn0">>, <<"f", "fn0"
              <<"x", "fn0">>, <<"z", "var">>, <<"X", "var">>, <<"xp", "var">>, <<"a1", "var">>, <<"a01", "var">>,
              <<"sib1", "var">>, <<"c", "var">>, <<"pi", "var">>, <<"k", "suf">> }
 NRRich == NRQuick \cup
-          { <<"cos", "fnx">>, <<"abs", "fn0">>, <<"si", "fn0">>, <<"f", "fnx">>, <<"sin", "var">>, <<"w", "var">>,
-            <<"a", "var">>, <<"am2", "var">>, <<"am0", "var">>, <<"a0", "var">>, <<"A1", "var">>, <<"as1", "var">>,
-            <<"ab1", "var">>, <<"sib2", "var">>, <<"m", "suf">>, <<"q", "suf">>, <<"pct", "suf">>, <<"k", "var">>,
-            <<"z", "fn0">>, <<"z", "suf">>, <<"y", "var">>, <<"n", "var">> }
+          { <<"abs", "fn0">>, <<"si", "fn0">>, <<"sin", "var">>, <<"a", "var">>, <<"am2", "var">>, <<"am0", "var">>,
+            <<"A1", "var">>, <<"sib2", "var">>, <<"q", "suf">>, <<"pct", "suf">>, <<"z", "fn0">>, <<"n", "var">> }
 NR == IF Rich THEN NRRich ELSE NRQuick
 Forms == IF Rich THEN {"mul0", "0mul", "cancel", "pow0", "bare"} ELSE {"mul0", "cancel"}
-Positions == (IF Rich THEN {"add", "front", "expo", "arg", "one", "den"} ELSE {"add", "expo", "arg"})
-             \cup (IF Part = "matrix" THEN {"arr"} ELSE {}) \cup (IF Part = "sum" /\ Rich THEN {"lower"} ELSE {})
+Positions == (IF Rich THEN {"add", "front", "expo", "arg", "one"} ELSE {"add", "expo", "arg"})
+             \cup (IF Part = "matrix" THEN {"arr"} ELSE {}) \cup (IF Part = "sum" THEN {"lower"} ELSE {})
 Bases(d) == (IF Rich THEN {"C1", "C2", "W"} ELSE {"C1", "W"})
             \cup (IF d.ans # "plain" /\ Part # "sum" THEN {"P"} ELSE {})
 Spacings(d) == IF d.forb = "none" THEN {"tight"} ELSE {"tight", "spaced"}
